@@ -208,13 +208,42 @@ def fatal_alert_in_plaintext(chunks):
     return found
 
 
+def _preload_sources():
+    """Read every tlslite source file into linecache once, at import (before the worker processes
+    are forked): the source text used in finding keys is then the text of the code that is running,
+    even if the files change on disk during a long run."""
+    import glob
+    import linecache
+    import os
+    import tlslite
+    root = os.path.dirname(os.path.abspath(tlslite.__file__))
+    for f in glob.glob(os.path.join(root, '**', '*.py'), recursive=True):
+        linecache.getlines(f)
+
+
+_preload_sources()
+
+
+def _frames(exc):
+    """(filename, function, source line) of the traceback frames, outermost first; lines come from
+    the preloaded cache (no re-validation against the file on disk)"""
+    import linecache
+    out = []
+    tb = exc.__traceback__
+    while tb is not None:
+        co = tb.tb_frame.f_code
+        out.append((co.co_filename, co.co_name, linecache.getline(co.co_filename, tb.tb_lineno).strip()))
+        tb = tb.tb_next
+    return out
+
+
 def innermost_tlslite_frame(exc):
-    tb = traceback.extract_tb(exc.__traceback__)
-    for fr in reversed(tb):
-        if '/tlslite/' in fr.filename:
-            return fr.name, (fr.line or '').strip()
-    if tb:
-        return tb[-1].name, (tb[-1].line or '').strip()
+    fr = _frames(exc)
+    for filename, name, line in reversed(fr):
+        if '/tlslite/' in filename:
+            return name, line
+    if fr:
+        return fr[-1][1], fr[-1][2]
     return '?', ''
 
 
@@ -460,7 +489,10 @@ def _run_case(case, fl, rng, mem, collect):
         if not eut.closed:
             P.append(('not-closed:%s:%s' % (type(exc).__name__, out['site'][0]),
                       'connection not closed after %s' % type(exc).__name__))
-        if out['resumable']:
+        orderly = isinstance(exc, tlserr.TLSRemoteAlert) and int(exc.description) == 0
+        # (the peer's close_notify is an orderly closure, not a failure: the session stays resumable by design,
+        #  see hole_close_notify_keeps_resumable in Props/C08.v)
+        if out['resumable'] and not orderly:
             P.append(('resumable:%s:%s' % (type(exc).__name__, out['site'][0]),
                       'session still resumable after %s' % type(exc).__name__))
         violation = isinstance(exc, tlserr.TLSError) and not isinstance(
@@ -483,6 +515,15 @@ def _run_case(case, fl, rng, mem, collect):
                           'protocol violation reported as %s without a fatal alert on the wire (raised in %s: `%s`)'
                           % (type(exc).__name__, out['site'][0], out['site'][1])))
     return out
+
+
+def hang_frame(exc):
+    """where a spinning call spins: the innermost tlslite frame that is not one of the Parser
+    primitives (the loop is in their caller)"""
+    for filename, name, line in reversed(_frames(exc)):
+        if '/tlslite/' in filename and not filename.endswith('utils/codec.py'):
+            return name, line
+    return innermost_tlslite_frame(exc)
 
 
 def _norm(s):
@@ -917,7 +958,7 @@ class HangTimeout(BaseException):
     `except Exception` handlers of the code under test cannot swallow it)"""
 
 
-HANG_SECONDS = 45
+HANG_SECONDS = 60
 
 
 def with_watchdog(fn, *args, **kw):
@@ -944,7 +985,7 @@ def worker(case):
             sys.setprofile(None)
             if tracemalloc.is_tracing():
                 tracemalloc.stop()
-            fn, line = innermost_tlslite_frame(e)
+            fn, line = hang_frame(e)
             name = get_flavours()[case['flavour']]['name']
             return dict(outcome=('Hang', fn), peer=None, applied=True, what='(watchdog)', bytes_in=0, calls=0, peak=0,
                         closed=False, resumable=False, n_msgs=0, n_recs=0,
